@@ -160,9 +160,10 @@ def run(case, ctx):
             ret = ctx.call("C08.approx_raises", sig0, cg.sat.approx_model_count, c, dict(A))
         calls = ctx.peer.approxmc_calls
         ctx.stats["approx_calls"] += 1
-        if len(calls) != 1:
-            ctx.violate("C08.approx_calls", f"approxmc was run {len(calls)} times", sig0)
-        rec = calls[0]
+        n_lib_calls = 2 if getattr(ctx, "twice", False) else 1     # the history seam repeats the library call
+        if len(calls) != n_lib_calls:
+            ctx.violate("C08.approx_calls", f"approxmc was run {len(calls)} times for {n_lib_calls} library call(s)", sig0)
+        rec = calls[-1]
         if not rec["path_exists"] or rec["text"] is None:
             ctx.violate("C08.dimacs_missing", "the DIMACS file did not exist when approxmc was started",
                         dict(sig0, kind="dimacs_missing"))
